@@ -163,13 +163,14 @@ package stun
 
 //@ func (*Message).CloneTo(m, b)
 //@   safety C01
-//@   props C01 C08
+//@   props C01 C08 C03
 //@   requires m != nil && b != nil
 //@   assigns *b, mem(b.Raw), mem(b.Attributes)
 //@   allocates
 //@   ensures bytes_eq_old(b.Raw, m.Raw) && (region(b.Raw) == old(region(b.Raw)) || fresh(b.Raw))
+//@   ensures region(b.Attributes) == old(region(b.Attributes)) || fresh(b.Attributes)
 //@   ensures result == nil ==> DecodedViews(b) && be32(b.Raw, 4) == 0x2112A442
-//@   props C02
+//@   props C02 C03
 //@   ensures result == nil <==> accept(b.Raw, len(b.Raw))
 //@   ensures result == nil ==> DecodedContent(b)
 
@@ -1391,6 +1392,46 @@ package stun
 //@   ensures result1 == nil && len(result0) == len(a)
 //@   ensures forall(k, 0, len(a), result0[k] == old(a[k]))
 
+//@ func verifLemmaEqualAfterDecode(m, d)
+//@   safety C03
+//@   props C03
+//@   requires m != nil && d != nil && m != d && Built(m) && Wire(m)
+//@   requires region(d.Raw) != region(m.Raw) && region(d.Attributes) != region(m.Attributes) && region(d.Raw) != region(m.Attributes) && region(d.Attributes) != region(m.Raw)
+//@   requires forall(k, 0, len(m.Attributes), m.Attributes[k].Type != 0x8020 && region(m.Attributes[k].Value) != region(d.Raw) && region(m.Attributes[k].Value) != region(d.Attributes))
+//@   assigns *d, mem(d.Raw), mem(d.Attributes)
+//@   allocates
+//@   assert len(d.Raw) == len(m.Raw) && forall(x, 0, len(m.Raw), d.Raw[x] == m.Raw[x])
+//@   assert WireHdr(m)
+//@   assert forall(i, 0, len(m.Attributes), vpos(WLens(m), i) + 3 < len(m.Raw), vpos(WLens(m), i))
+//@   assert forall(i, 0, len(m.Attributes), d.Raw[vpos(WLens(m), i) + 2] == m.Raw[vpos(WLens(m), i) + 2] && d.Raw[vpos(WLens(m), i) + 3] == m.Raw[vpos(WLens(m), i) + 3], vpos(WLens(m), i))
+//@   assert forall(i, 0, len(m.Attributes), be16(d.Raw, vpos(WLens(m), i) + 2) == WLens(m)[i])
+//@   assert forall(i, 0, len(m.Attributes), be16(d.Raw, vpos(WLens(m), i) + 2) == WLens(m)[i] && WLens(m)[i] >= 0)
+//@   use forall(k, 0, len(m.Attributes) + 1, start_vpos(d.Raw, WLens(m), len(m.Attributes), k), start(d.Raw, k))
+//@   use tlv_vpos(d.Raw, WLens(m), len(m.Attributes), len(m.Attributes))
+//@   use mtype_decode_encode(m.Type.Method, m.Type.Class)
+//@   assert start(d.Raw, len(m.Attributes)) == 20 + m.Length
+//@   assert tlv(d.Raw, 20, 20 + m.Length)
+//@   assert be16(d.Raw, 2) == m.Length && be32(d.Raw, 4) == 0x2112A442 && len(d.Raw) == 20 + m.Length
+//@   assert accept(d.Raw, len(d.Raw))
+//@   assert err == nil
+//@   assert len(m.Attributes) < len(d.Attributes) ==> start(d.Raw, len(m.Attributes)) + 4 <= 20 + be16(d.Raw, 2)
+//@   assert len(d.Attributes) <= len(m.Attributes)
+//@   assert len(d.Attributes) >= len(m.Attributes)
+//@   assert be16(d.Raw, 0) == be16(m.Raw, 0) && be16(d.Raw, 0) == mtype(m.Type.Method, m.Type.Class)
+//@   assert d.Type.Method == m.Type.Method && d.Type.Class == m.Type.Class && d.Length == m.Length
+//@   assert forall(j, 0, 12, d.TransactionID[j] == m.TransactionID[j])
+//@   assert forall(i, 0, len(m.Attributes), d.Raw[vpos(WLens(m), i)] == m.Raw[vpos(WLens(m), i)] && d.Raw[vpos(WLens(m), i) + 1] == m.Raw[vpos(WLens(m), i) + 1], vpos(WLens(m), i))
+//@   assert forall(i, 0, len(m.Attributes), be16(d.Raw, vpos(WLens(m), i)) == m.Attributes[i].Type, vpos(WLens(m), i))
+//@   assert forall(k, 0, len(m.Attributes), start(d.Raw, k) == vpos(WLens(m), k), start(d.Raw, k))
+//@   assert forall(k, 0, len(m.Attributes), d.Attributes[k].Type == compat(be16(d.Raw, vpos(WLens(m), k))), vpos(WLens(m), k))
+//@   assert forall(k, 0, len(m.Attributes), d.Attributes[k].Type == m.Attributes[k].Type, vpos(WLens(m), k))
+//@   assert forall(k, 0, len(m.Attributes), d.Attributes[k].Length == be16(d.Raw, vpos(WLens(m), k) + 2) && len(d.Attributes[k].Value) == be16(d.Raw, vpos(WLens(m), k) + 2), vpos(WLens(m), k))
+//@   assert forall(k, 0, len(m.Attributes), d.Attributes[k].Length == len(m.Attributes[k].Value) && len(d.Attributes[k].Value) == len(m.Attributes[k].Value), vpos(WLens(m), k))
+//@   assert forall(k, 0, len(m.Attributes), m.Attributes[k].Length == len(m.Attributes[k].Value), vpos(WLens(m), k))
+//@   assert forall(k, 0, len(m.Attributes), m.Attributes[k].Type == d.Attributes[k].Type && m.Attributes[k].Length == d.Attributes[k].Length && len(m.Attributes[k].Value) == len(d.Attributes[k].Value))
+//@   assert forall(k, 0, len(m.Attributes), bytes_eq(m.Attributes[k].Value, d.Attributes[k].Value))
+//@   ensures result
+
 //@ func Build(setters)
 //@   safety C03 C09
 //@   props C03 C09
@@ -1477,7 +1518,7 @@ package stun
 //@   props C03
 //@   pure
 //@   ensures m != nil && msg != nil && m.Type.Method == msg.Type.Method && m.Type.Class == msg.Type.Class && m.Length == msg.Length
-//@        |   && m.TransactionID == msg.TransactionID && PairwiseEq(m.Attributes, msg.Attributes) ==> result
+//@        |   && forall(j, 0, 12, m.TransactionID[j] == msg.TransactionID[j]) && PairwiseEq(m.Attributes, msg.Attributes) ==> result
 //@   ensures result && m != nil ==> msg != nil && m.Type.Method == msg.Type.Method && m.Type.Class == msg.Type.Class && m.Length == msg.Length && len(m.Attributes) == len(msg.Attributes)
 
 // ---- URI layer (C16, C17). net/url, net and strconv are trusted (spec/40_uri.spec); strings are abstract values. ----
